@@ -31,7 +31,7 @@ static size_t tok_size(const rc_t *c)
 /* ---- well-formed documents: nested objects and arrays, names ascending within every object ---------------- */
 static const struct { uint8_t b[4]; size_t n; } POOL[] = {{{0}, 0}, {{0}, 1}, {{'a'}, 1}, {{'a', 0}, 2}, {{'a', 0, 'x'}, 3}, {{'a', 0, 'y'}, 3},
                                                           {{'a', 'a'}, 2}, {{'b'}, 1}, {{0x80}, 1}, {{0xff, 0}, 2}};
-#define MAXC 48
+#define MAXC 600
 static void fill_scalar(rng_t *r, rc_t *c);
 static int gen_value(rng_t *r, rc_t *calls, int nc, int depth);
 static int gen_object(rng_t *r, rc_t *calls, int nc, int depth)
@@ -80,6 +80,47 @@ static void fill_scalar(rng_t *r, rc_t *c)
     }
 }
 
+/* C05: decoding the output by TRAVERSAL gives back the values written (lock-step walk over the call list) */
+static void payload_of(const rc_t *c, uint8_t *dst) { if (c->is_lit) memcpy(dst, c->lit, c->litlen); else memset(dst, c->byte, c->len); }
+static int walk_back(const rc_t *calls, int nc, const uint8_t *out, size_t len)
+{
+    binson_state st[12]; binson_parser p; memset(&p, 0, sizeof p); memset(st, 0, sizeof st);
+    p.max_depth = 12; p.state = st;
+    if (!binson_parser_init_object(&p, out, len)) return 0;
+    static char stack[MAXC]; int sp = 0; const rc_t *pending = NULL; int res = 1;
+    for (int i = 0; i < nc && res; i++) {
+        const rc_t *c = &calls[i];
+        bool in_obj = sp > 0 && stack[sp-1] == 'O';
+        if (i == 0) { if (strcmp(c->op, "ob") || !binson_parser_go_into_object(&p)) return 0; stack[sp++] = 'O'; continue; }
+        if (!strcmp(c->op, "oe") || !strcmp(c->op, "ae")) {
+            if (binson_parser_next(&p)) return 0;
+            if (!(c->op[0] == 'o' ? binson_parser_leave_object(&p) : binson_parser_leave_array(&p))) return 0;
+            sp--; continue;
+        }
+        if (in_obj && pending == NULL) { pending = c; continue; }
+        if (!binson_parser_next(&p)) return 0;
+        if (in_obj) {
+            bbuf *n = binson_parser_get_name(&p); size_t L = PLEN(pending); uint8_t *w = (uint8_t *) malloc(L + 1); payload_of(pending, w);
+            if (!n || n->bsize != L || memcmp(n->bptr, w, L)) res = 0;
+            free(w); pending = NULL;
+        }
+        binson_type t = binson_parser_get_type(&p);
+        if (!strcmp(c->op, "ob")) { if (t != BINSON_TYPE_OBJECT || !binson_parser_go_into_object(&p)) res = 0; stack[sp++] = 'O'; }
+        else if (!strcmp(c->op, "ab")) { if (t != BINSON_TYPE_ARRAY || !binson_parser_go_into_array(&p)) res = 0; stack[sp++] = 'A'; }
+        else if (!strcmp(c->op, "t") || !strcmp(c->op, "f")) { if (t != BINSON_TYPE_BOOLEAN || binson_parser_get_boolean(&p) != (c->op[0] == 't')) res = 0; }
+        else if (!strcmp(c->op, "int")) { int64_t v; memcpy(&v, c->v8, 8); if (t != BINSON_TYPE_INTEGER || binson_parser_get_integer(&p) != v) res = 0; }
+        else if (!strcmp(c->op, "dbl")) { double d = binson_parser_get_double(&p); if (t != BINSON_TYPE_DOUBLE || memcmp(&d, c->v8, 8)) res = 0; }
+        else if (!strcmp(c->op, "str") || !strcmp(c->op, "bytes")) {
+            bool isb = c->op[0] == 'b'; bbuf *b = isb ? binson_parser_get_bytes_bbuf(&p) : binson_parser_get_string_bbuf(&p);
+            size_t L = PLEN(c); uint8_t *w = (uint8_t *) malloc(L + 1); payload_of(c, w);
+            if (t != (isb ? BINSON_TYPE_BYTES : BINSON_TYPE_STRING) || !b || b->bsize != L || memcmp(b->bptr, w, L)) res = 0;
+            free(w);
+        } else res = 0;
+        if (sp >= MAXC - 2) return 0;
+    }
+    return res && sp == 0 && p.error_flags == BINSON_ERROR_NONE;
+}
+
 int main(int argc, char **argv)
 {
     uint64_t seed = 1; int n = 200; const char *out = NULL;
@@ -94,7 +135,23 @@ int main(int argc, char **argv)
     for (int run = 0; run < n; run++) {
         rc_t calls[MAXC]; int nc = 1 + (int) rng_below(&r, 8); size_t total = 0; size_t bounds[2 * MAXC + 2]; int nb = 0;
         bool wellformed = (run % 3) == 0;
-        if (wellformed) nc = gen_object(&r, calls, 0, 0);
+        if (run < 6) {
+            /* deep family (every run): {"a":[[ ... N arrays ... [1,"x",2] ... ]],"z":7} - array nesting across 127/128 and up to the limit */
+            static const int NN[6] = {1, 100, 127, 128, 129, 254};
+            int N = NN[run]; nc = 0; wellformed = true;
+#define PUSH(o) do { memset(&calls[nc], 0, sizeof calls[nc]); calls[nc].op = (o); nc++; } while (0)
+            PUSH("ob"); PUSH("name"); calls[nc-1].is_lit = true; calls[nc-1].litlen = 1; calls[nc-1].lit[0] = 'a';
+            for (int i = 0; i < N; i++) PUSH("ab");
+            PUSH("int"); { int64_t v = 1; memcpy(calls[nc-1].v8, &v, 8); }
+            PUSH("str"); calls[nc-1].is_lit = true; calls[nc-1].litlen = 1; calls[nc-1].lit[0] = 'x';
+            PUSH("int"); { int64_t v = 2; memcpy(calls[nc-1].v8, &v, 8); }
+            for (int i = 0; i < N; i++) PUSH("ae");
+            PUSH("name"); calls[nc-1].is_lit = true; calls[nc-1].litlen = 1; calls[nc-1].lit[0] = 'z';
+            PUSH("int"); { int64_t v = 7; memcpy(calls[nc-1].v8, &v, 8); }
+            PUSH("oe");
+#undef PUSH
+        }
+        else if (wellformed) nc = gen_object(&r, calls, 0, 0);
         else for (int i = 0; i < nc; i++) { rc_t *c = &calls[i]; memset(c, 0, sizeof *c); c->op = OPS[rng_below(&r, 14)]; fill_scalar(&r, c); }
         for (int i = 0; i < nc; i++) {
             rc_t *c = &calls[i];
@@ -140,6 +197,10 @@ int main(int argc, char **argv)
             }
             if (k == 0) { cnt = binson_writer_get_counter(&w); err = (int) w.error_flags; if (err == 0) wv = binson_writer_verify(&w); }
         }
+        /* parse-back by traversal of the self-run output (room for everything) when the list is a well-formed object without raw calls */
+        int pb = -1;
+        if (wellformed) { bool raw = false; for (int i = 0; i < nc; i++) if (!strcmp(calls[i].op, "raw")) raw = true;
+                          if (!raw) pb = walk_back(calls, nc, buf[2], scnt[nc - 1]); }
         size_t ns = 0; bool contiguous = true; unsigned long sum = 0;
         for (size_t i = 0; i < cap; i++) if (buf[0][i] == buf[1][i]) { if (i != ns) contiguous = false; ns = i + 1; sum = (sum + buf[0][i] * (unsigned long) (1 + (i % 251))) % 1000003UL; }
         fprintf(f, "{\"cap\":%zu,\"calls\":[", cap);
@@ -155,7 +216,7 @@ int main(int argc, char **argv)
         for (int i = 0; i < nc; i++) fprintf(f, i ? ",%d" : "%d", rets[i]);
         fprintf(f, "],\"scnt\":[");
         for (int i = 0; i < nc; i++) fprintf(f, i ? ",%zu" : "%zu", scnt[i]);
-        fprintf(f, "],\"cnt\":%zu,\"err\":%d,\"nstored\":%zu,\"contig\":%d,\"sum\":%lu,\"wv\":%d,\"head\":[", cnt, err, ns, contiguous ? 1 : 0, sum, wv ? 1 : 0);
+        fprintf(f, "],\"cnt\":%zu,\"err\":%d,\"nstored\":%zu,\"contig\":%d,\"sum\":%lu,\"wv\":%d,\"pb\":%d,\"head\":[", cnt, err, ns, contiguous ? 1 : 0, sum, wv ? 1 : 0, pb);
         for (size_t i = 0; i < ns && i < 64; i++) fprintf(f, i ? ",%u" : "%u", buf[0][i]);
         fprintf(f, "],\"tail\":[");
         for (size_t i = ns > 16 ? ns - 16 : 0, k = 0; i < ns; i++, k++) fprintf(f, k ? ",%u" : "%u", buf[0][i]);
